@@ -155,6 +155,36 @@ def check_rules_selection(rep, ctx):
             rep.add(Query("rules slot path %d: other destinations read no slot" % i, "violated", "reads %s" % used, bad[1], "mirsym+z3", key="C01.rules-slot:other", model=bad[0], reproduced=None))
 
 
+def check_traversal_predicate(rep, ctx):
+    """HttpConnectionContext::contains_traversal_characters is `the url path contains ".."` (the handler model keeps it uninterpreted)"""
+    try:
+        p = ctx.method("HttpConnectionContext", "contains_traversal_characters")
+    except Inconclusive:
+        return
+    eng = ctx.engine()
+    paths = eng.explore(p)
+    rep.functions_encoded.append(p)
+    ok = False
+    detail = "%d paths" % len(paths)
+    if len(paths) == 1 and paths[0].status == "return":
+        r = paths[0]
+        me = origin(r.args[0])
+        up = [e for e in r.events if e.kind == "call" and e.callee.endswith("Uri::path") and is_part_of(origin(e.rargs[0]), me)]
+        ct = [e for e in r.events if e.kind == "call" and re.search(r"str::contains$|str>::contains$", e.callee) and up and same_origin(e.rargs[0], up[0].ret)
+              and isinstance(origin(e.rargs[1]), StrV) and origin(e.rargs[1]).e.as_string() == ".."]
+        fd = [e for e in r.events if e.kind == "call" and re.search(r"str::find$", e.callee) and up and same_origin(e.rargs[0], up[0].ret)
+              and isinstance(origin(e.rargs[1]), StrV) and origin(e.rargs[1]).e.as_string() == ".."]
+        if ct and same_origin(r.ret, ct[0].ret):
+            ok = True
+        elif fd and any(e.kind == "call" and e.callee.endswith("Option::is_some") and same_origin(e.rargs[0], fd[0].ret) and same_origin(r.ret, e.ret) for e in r.events):
+            ok = True
+        else:
+            detail = "UNKNOWN-SHAPE result %r; calls %s" % (r.ret, [e.callee.split("::")[-1] for e in r.events if e.kind == "call"])
+    else:
+        detail = "UNKNOWN-SHAPE %d paths" % len(paths)
+    rep.add(Query("contains_traversal_characters() is true exactly when the request url's path contains \"..\"", "holds" if ok else "violated", detail, 0, "mirsym", key="C01.traversal-predicate", reproduced=None))
+
+
 def check(rep, tier, seed):
     ctx = Ctx("agent")
     rep.extra["mir_dump"] = {"cache_hit": ctx.dump.cache_hit, "tree_hash": ctx.dump.hash, "seconds": round(ctx.dump.seconds, 1)}
@@ -162,6 +192,12 @@ def check(rep, tier, seed):
     rep.bounds["handler"] = "%d complete paths; loop bound 2 (the handler has no loops besides await polling); inline depth <= 3; every .await assumed to complete (Pending pruned)" % len(hm.paths)
     check_mediation(rep, hm)
     check_rules_selection(rep, ctx)
+    check_traversal_predicate(rep, ctx)
+    # the built-in authorizers the handler delegates to are part of "authorized": their obligations (non-elevated callers of
+    # WireServer/HostGAPlugin and requests to the proxy's own listener are Forbidden on EVERY path of authorize(), also on paths
+    # that decide without consulting the destination's authorizer) are discharged here as well (same queries as C03)
+    import p_c03
+    p_c03.check_authorize(rep, ctx)
     rep.stubs += ["every callee not inlined is uninterpreted: arbitrary result of its type, one trace event (list in coverage.uninterpreted_callees)"]
     rep.assumptions += ["Future::poll returns Ready (progress); Pending branches are not explored",
                         "nightly built-phase MIR = semantics of the stable build"]
@@ -171,6 +207,10 @@ def check(rep, tier, seed):
 
     import e2e
     e2e.confirm(rep, "C01")
+    # a predicate shape the check does not know is a violation only if the end-to-end witnesses confirm it; otherwise undecided
+    for q in rep.queries:
+        if q.status == "violated" and "UNKNOWN-SHAPE" in (q.detail or "") and not q.reproduced:
+            q.status = "inconclusive"
 
 
 def replay(path):
